@@ -6,6 +6,7 @@ Model: InToto/Model/Subst.lean.  Spec: InToto/Spec/Subst.lean.
 -/
 import InToto.Proofs.Subst
 import InToto.Generated.Facts
+import InToto.Model.StageOrder
 
 namespace InToto.C18
 open InToto InToto.Schema InToto.Subst InToto.SubstSpec InToto.SubstProofs
@@ -69,5 +70,11 @@ theorem examples :
 /-- fact regenerated from the source on every run: the parameter-name regular expression is the one
     `validName` models -/
 theorem facts_name_regexp : (lit% "^[a-zA-Z0-9_-]+$") ∈ Generated.regexps := by decide
+
+/-- REGENERATED FACT (stage order): in both entry points parameters are substituted unconditionally,
+    before any rule is evaluated and any inspection command is run -/
+theorem facts_substitution_before_use :
+    (StageOrder.beforeAll Generated.stagesInTotoVerify "SubstituteParameters" ["VerifyArtifacts", "RunInspections"]) = true ∧
+    (StageOrder.beforeAll Generated.stagesInTotoVerifyWithDirectory "SubstituteParameters" ["VerifyArtifacts", "RunInspections"]) = true := by decide
 
 end InToto.C18
